@@ -106,6 +106,36 @@ func c04SkipExact(depth int) {
 	vapi.Check(r.ReadBytes(&rest, 1, true) == nil && rest[0] == 0xAB, "skip: cursor exactly after the member")
 }
 
+// VerifC04SkipManyContainers: an unknown field that contains MANY containers side by side (a
+// list of 65..66 maps / lists / structs, real nesting 2): skipping bookkeeping that is per level
+// (the nesting-depth guard) must not add up across siblings.
+func VerifC04SkipManyContainers() {
+	n := 65 + vapi.Choice("n", 2)
+	inner := []byte{tyMap, tyList, tyBegin}[vapi.Choice("inner", 3)]
+	f := append(wHead(tyList, 3), 0x00, byte(n)) // LIST at tag 3, count n (BYTE)
+	for i := 0; i < n; i++ {
+		f = append(f, wHead(inner, 0)...)
+		switch inner {
+		case tyMap, tyList:
+			f = append(f, 0x0C) // count 0
+		case tyBegin:
+			f = append(f, 0x0B) // empty struct
+		}
+	}
+	sent := vapi.Byte("sent")
+	vapi.Assume(sent != 0)
+	data := append(append(f, wHead(tyByte, 200)...), sent)
+	r := codec.NewReader(data)
+	var o int8
+	err := r.ReadInt8(&o, 200, true)
+	vapi.Check(err == nil, "skip: member after an unknown field with many sibling containers is found")
+	vapi.Check(byte(o) == sent, "skip: member after an unknown field has its value")
+	// and the same reader can do it again (nothing accumulates in the reader)
+	r2 := codec.NewReader(append(append([]byte{}, data...), data...))
+	vapi.Check(r2.ReadInt8(&o, 200, true) == nil, "skip: first of two such fields")
+	vapi.Reach("c04-skip-many-containers")
+}
+
 func VerifC04SkipExact()     { c04SkipExact(1); vapi.Reach("c04-skip-exact") }
 func VerifC04SkipExactDeep() { c04MaxLen = 1; c04SkipExact(2); vapi.Reach("c04-skip-exact-deep") }
 
